@@ -273,6 +273,13 @@ def run_check(prop: str, tier: str, verif_seed: int, *, budget: float | None = N
     elif (agg.runs == 0 or worker_fail > max(1, nw // 8)
           or len(agg.harness_errors) > max(2, agg.runs // 500)):
         rc = 2
+    if rc == 0 and agg.runs >= 100 and agg.nontrivial_runs * 50 < agg.runs:
+        # "held on everything explored" would be empty words: (almost) no run reached the
+        # situation the property is about (e.g. every circuit was excluded at birth)
+        rc = 2
+        if not quiet:
+            print(f"HARNESS-ERROR: only {agg.nontrivial_runs} of {agg.runs} runs were non-trivial "
+                  f"(see the per-property rule): no verdict", file=sys.stderr)
     if rc == 0 and (worker_fail or agg.harness_errors) and not quiet:
         print(f"NO-VERDICT-RUNS: harness_errors={len(agg.harness_errors)} "
               f"worker_failures={worker_fail} (of {agg.runs} runs, {nw} workers)")
